@@ -114,7 +114,54 @@ def t_prop_sat(env, f):
     return propagate_toplevel(f, env, do_simplify=False, preserve_equivalence=False)
 
 
+# the same rewriter OBJECT serves every instance of the family (memo tables, fresh-name counters and renaming maps survive)
+_REUSED = {}
+
+
+def reused(env, key, mk):
+    k = (id(env), key)
+    if k not in _REUSED or _REUSED[k][0] is not env:
+        _REUSED[k] = (env, mk())
+    return _REUSED[k][1]
+
+
+def t_nnf_reused(env, f):
+    from pysmt.rewritings import NNFizer
+    return reused(env, "nnf", lambda: NNFizer(env)).convert(f)
+
+
+def t_prenex_reused(env, f):
+    from pysmt.rewritings import PrenexNormalizer
+    return reused(env, "prenex", lambda: PrenexNormalizer(env)).normalize(f)
+
+
+def t_aig_reused(env, f):
+    from pysmt.rewritings import AIGer
+    return reused(env, "aig", lambda: AIGer(env)).convert(f)
+
+
+def t_shannon_reused(env, f):
+    from pysmt.solvers.qelim import ShannonQuantifierEliminator
+    return reused(env, "shannon", lambda: ShannonQuantifierEliminator(env)).eliminate_quantifiers(f)
+
+
+def t_selfsub_reused(env, f):
+    from pysmt.solvers.qelim import SelfSubstitutionQuantifierEliminator
+    return reused(env, "selfsub", lambda: SelfSubstitutionQuantifierEliminator(env)).eliminate_quantifiers(f)
+
+
+def t_timesdist_reused(env, f):
+    from pysmt.rewritings import TimesDistributor
+    return reused(env, "timesdist", lambda: TimesDistributor(env)).walk(f)
+
+
 TRANSFORMS = {
+    "nnf_reused": (t_nnf_reused, shape_nnf, "equiv"),
+    "prenex_reused": (t_prenex_reused, shape_prenex, "equiv"),
+    "aig_reused": (t_aig_reused, shape_aig, "equiv"),
+    "qe_shannon_reused": (t_shannon_reused, shape_qf, "equiv"),
+    "qe_selfsub_reused": (t_selfsub_reused, shape_qf, "equiv"),
+    "times_distributor_reused": (t_timesdist_reused, None, "equiv"),
     "nnf": (t_nnf, shape_nnf, "equiv"),
     "prenex": (t_prenex, shape_prenex, "equiv"),
     "aig": (t_aig, shape_aig, "equiv"),
@@ -175,6 +222,10 @@ def gen_qcombo(env, tier):
         for vs in blocks[:4]:
             out += [m.ForAll(vs, m.And(x, a)), m.Exists(vs, m.Or(m.Not(x), b))]
     return BoolGrammar.uniq(out)
+
+
+def gen_qcombo_small(env, tier):
+    return gen_bool_q(env, tier)[::3] + gen_qcombo(env, tier)[::(4 if tier == "quick" else 2)]
 
 
 def gen_poly(env, tier):
@@ -274,11 +325,17 @@ FAMILIES = {
     "propagate_toplevel": ("propagate_toplevel", gen_prop),
     "propagate_toplevel_simplify": ("propagate_toplevel_simplify", gen_prop),
     "propagate_toplevel_equisat": ("propagate_toplevel_equisat", gen_prop),
+    "nnf_reused": ("nnf_reused", gen_qcombo_small),
+    "prenex_reused": ("prenex_reused", gen_qcombo_small),
+    "aig_reused": ("aig_reused", gen_bool_q),
+    "qe_shannon_reused": ("qe_shannon_reused", gen_qe),
+    "qe_selfsub_reused": ("qe_selfsub_reused", gen_qe),
+    "times_distributor_reused": ("times_distributor_reused", gen_poly),
 }
 
 
 def in_fragment(tname, f):
-    if tname in ("qe_shannon", "qe_selfsub"):
+    if tname in ("qe_shannon", "qe_selfsub", "qe_shannon_reused", "qe_selfsub_reused"):
         for t in rs.subterms(f):
             if t.node_type() in (op.FORALL, op.EXISTS):
                 if any(not v.symbol_type().is_bool_type() for v in t.quantifier_vars()):
